@@ -803,7 +803,12 @@ class Foreign(EngineBase):
             want.append("cpu_freq")
         if platform.startswith("freebsd"):
             want += ["sensors_temperatures", "sensors_battery",
-                     "RLIMIT_NOFILE", "RLIM_INFINITY"]
+                     "RLIM_INFINITY", "RLIMIT_AS", "RLIMIT_CORE",
+                     "RLIMIT_CPU", "RLIMIT_DATA", "RLIMIT_FSIZE",
+                     "RLIMIT_MEMLOCK", "RLIMIT_NOFILE", "RLIMIT_NPROC",
+                     "RLIMIT_RSS", "RLIMIT_STACK",
+                     # documented as FreeBSD specific
+                     "RLIMIT_SWAP", "RLIMIT_SBSIZE", "RLIMIT_NPTS"]
         if platform == "win32":
             want += ["sensors_battery", "win_service_iter", "win_service_get",
                      "REALTIME_PRIORITY_CLASS", "HIGH_PRIORITY_CLASS",
